@@ -27,6 +27,7 @@ var harnessModels = map[string]string{
 	"os.Rename":             "verifFSRename",
 	"os.RemoveAll":          "verifFSRemoveAll",
 	"encoding/json.Marshal": "verifJSONMarshal",
+	"encoding/json.Unmarshal": "verifJSONUnmarshal",
 }
 
 func harnessDispatch(key, model string, prev externalFn) externalFn {
